@@ -8,7 +8,9 @@ Import ListNotations.
 Open Scope Z_scope.
 
 (* _spline_knots: concatenate(linspace(.., degree), linspace(.., num_knots), linspace(.., degree)) *)
-Definition spline_nk (num_knots degree : Z) : Z := num_knots + 2 * degree.
+(* the length formula is derived by the translator from the np.concatenate / np.linspace / np.repeat /
+   np.percentile calls of the source (gen/GenKernels.v, spline_knots_len) *)
+Definition spline_nk (num_knots degree : Z) : Z := spline_knots_len true num_knots degree.
 (* SplineBasis._num_bases = basis.shape[1] = len(knots) - degree - 1 *)
 Definition spline_num_bases (num_knots degree : Z) : Z := spline_nk num_knots degree - degree - 1.
 
@@ -33,7 +35,8 @@ Definition loess_pipeline (mode n total_points p : Z) : M unit :=
   fill_skips n n skips.
 
 (* _padded_rolling_std: np.pad(data, half_window, 'reflect') *)
-Definition padded_len (n half_window : Z) : Z := n + 2 * half_window.
+(* length derived by the translator from the padding expression of the source (prs_padded_len) *)
+Definition padded_len (n half_window : Z) : Z := prs_padded_len n half_window.
 Definition rolling_std_call (n half_window : Z) : M unit := rolling_std (padded_len n half_window) half_window.
 
 (* misc._banded_dot_banded with square full shapes (n, n) *)
@@ -49,3 +52,44 @@ Definition bdb_call (n a_lower a_upper b_lower b_upper : Z) (symmetric : bool) :
    ceil(logspace(log10(first), 0, max_iter)) cast to int *)
 Definition pf_call_args (sections half_win pads : Z) : Z := pf_half_win half_win sections.
 Definition pf_kernel_call (sections pads h : Z) : M unit := dmma (sections + pads) sections h.
+
+(* the same call with the length of y_truncated derived from the source (pf_y_len): np.empty(sections)
+   padded by [left_pad, right_pad], each 0 or 1 *)
+Definition pf_kernel_call2 (sections left_pad right_pad h : Z) : M unit :=
+  dmma (pf_y_len sections left_pad right_pad) sections h.
+
+(* corner_cutting: _quadratic_bezier_spline(self.x, y, np.flatnonzero(mask)) *)
+Definition corner_cutting_call (n : Z) (indices : list Z) : M unit := bezier n n indices.
+
+(* classification._find_peak_segments on a boolean mask (True = baseline point) *)
+Fixpoint starts_from (prev : bool) (i : Z) (l : list bool) : list Z :=
+  match l with
+  | [] => []
+  | m :: t => (if negb m && prev then [i] else []) ++ starts_from m (i + 1) t
+  end.
+Fixpoint ends_from (i : Z) (l : list bool) : list Z :=
+  match l with
+  | [] => []
+  | m :: t => let next := match t with [] => true | m' :: _ => m' end in
+              (if negb m && next then [i] else []) ++ ends_from (i + 1) t
+  end.
+(* peak_starts[1 if peak_starts[0] == 0 else 0:] -= 1 *)
+Definition adj_starts (l : list Z) : list Z :=
+  match l with [] => [] | a :: t => (if a =? 0 then a else a - 1) :: map (fun v => v - 1) t end.
+(* peak_ends[:-1 if peak_ends[-1] == N - 1 else None] += 1 *)
+Fixpoint adj_ends (N : Z) (l : list Z) : list Z :=
+  match l with
+  | [] => []
+  | [b] => [if b =? N - 1 then b else b + 1]
+  | b :: t => (b + 1) :: adj_ends N t
+  end.
+Definition find_peak_segments (mask : list bool) : list (Z * Z) :=
+  combine (adj_starts (starts_from true 0 mask)) (adj_ends (lenz mask) (ends_from 0 mask)).
+
+(* classification._averaged_interp: one kernel call per segment on x[start:end+1], output[start:end+1] *)
+Definition averaged_interp_calls (n : Z) (segs : list (Z * Z)) : M unit :=
+  for_range_ 0 (lenz segs) (fun k =>
+    let '(s, e) := nthz segs k (0, 0) in
+    interp_inplace A_x (sl_len n (oS s) (oS (e + 1))) A_output (sl_len n (oS s) (oS (e + 1)))).
+Definition averaged_interp (mask : list bool) : M unit :=
+  averaged_interp_calls (lenz mask) (find_peak_segments mask).
